@@ -9,6 +9,23 @@ CHECKS = {
    note="Trusts the harness's own layout enumerator, address computation and edit-script search (independent of state-tree's). Layouts above the bound (leaf sizes other than 1/2, arity>3, >4 leaves) are not covered.",
    design="4/C08"),
 }
+CHECKS.update({
+ "C04": dict(
+   technique="bounded-exhaustive enumeration of token sequences, deviation-1 token edits/truncations of corpus files and nesting ladders through the real front end and compile entry points (shape E)",
+   text="Every sequence of <=3 (thorough 4) token spellings over the full lexer alphabet, every single-token edit and byte truncation of the smallest corpus files, and every nesting depth 1..64 of 26 bracket/recursion ladders is run through tokenize, parse_to_expr, typecheck_with_module_info (the language-server path) and, on the smaller sub-space, emit_bytecode/emit_wasm, in crash-isolated workers on a 2 MiB stack with a watchdog; panics, aborts, stack overflows, hangs, Ok-on-erroneous-text and diagnostic spans outside the text or off character boundaries are failures.",
+   note="Bounds: sequence length, the stated nesting bound B=64 on a 2 MiB stack in the harness profile, edit distance 1. Longer or differently shaped texts are not covered.",
+   design="4/C04"),
+ "C13": dict(
+   technique="bounded-exhaustive enumeration of all strings over a 30-character alphabet, token-spelling concatenations and corpus truncations through tokenize/preparse/parse_cst (shape E)",
+   text="For every string up to the length bound the token tiling, the CST leaf sequence and the trivia attachment are compared with what the text itself dictates; exhaustive below the bound.",
+   note="Alphabet chosen to reach every lexical rule and two-character look-ahead; other characters only through corpus truncations.",
+   design="4/C13"),
+ "C20": dict(
+   technique="bounded-exhaustive enumeration of interpreter values, types and argument lists through the real serialize/deserialize functions (shape E)",
+   text="Every value up to the depth/width bound over a leaf menu containing every representable and every unrepresentable kind, and every argument list of length 0..2 with every type of a depth-2 type menu, is encoded and decoded; the result is compared structurally (numbers by bit pattern), and values containing an unrepresentable part must be refused.",
+   note="Host and plugin share the interner (as the loader arranges), so node ids cross as keys. No DLL boundary is crossed; the encoding functions the loader calls are what is checked.",
+   design="4/C20"),
+})
 NOT_YET = {}
 
 def main():
